@@ -167,6 +167,48 @@ def evaluate(ctx, job, meta, res):
                       dict(data, kind='ts-differs', got=enc(got), only_exotic_strings=exo, only_astral_strings=astral))
 
 
+TS_PATCH_THEOREMS = ['Nbdime.C15_ts_patch_eq', 'Nbdime.C15_ts_roundtrip_generic', 'Nbdime.C15_ts_roundtrip_notebook']
+THEOREMS.extend(TS_PATCH_THEOREMS)
+
+
+def mutate_diff(rng, base, d):
+    """a few ill-formed variants of a diff (out-of-range keys, repeated keys, wrong entry kinds): the model has to reject
+    exactly what the browser rejects"""
+    out = []
+    d = copy.deepcopy(d)
+    def walk(doc, dd):
+        yield doc, dd
+        for e in dd:
+            if e.get('op') == 'patch' and isinstance(e.get('diff'), list):
+                try:
+                    sub = doc[e['key']]
+                except (KeyError, IndexError, TypeError):
+                    continue
+                if isinstance(sub, (dict, list)):
+                    yield from walk(sub, e['diff'])
+    spots = list(walk(base, d))
+    for _ in range(2):
+        dd = copy.deepcopy(d)
+        spots2 = list(walk(base, dd))
+        doc, lst = rng.choice(spots2)
+        if not lst:
+            continue
+        e = rng.choice(lst)
+        kind = rng.choice(['key-out', 'dup', 'len', 'wrongkey'])
+        if kind == 'key-out' and isinstance(e.get('key'), int):
+            e['key'] = e['key'] + len(doc) + 3
+        elif kind == 'dup':
+            lst.append(copy.deepcopy(e))
+        elif kind == 'len' and e.get('op') == 'removerange':
+            e['length'] = e['length'] + len(doc) + 1
+        elif kind == 'wrongkey' and isinstance(e.get('key'), str):
+            e['key'] = e['key'] + '-absent'
+        else:
+            continue
+        out.append((base, dd))
+    return out
+
+
 def run(ctx):
     ctx.cov['rule'] = ('(base, diff) pairs from diff_notebooks on generated notebook pairs and (base, decisions) pairs from the merger under the web tool strategy on '
                        'generated triples (incl. minor-version conflicts and strings with every separator Python knows), each run through the real TypeScript and '
@@ -248,6 +290,36 @@ def run(ctx):
     SPLITTER_AS_PINNED[0] = not mism
     for job, meta, res in zip(jobs, metas, results[:len(jobs)]):
         evaluate(ctx, job, meta, res)
+    # the Lean model of the browser-side patcher (Ts.patch: patchSequence / patchObject / patchString + flattenStringDiff)
+    # against the real TypeScript, on every (base, diff) pair and on ill-formed variants of the diffs
+    pjobs = [(j['base'], j['diff']) for j in jobs if j['kind'] == 'patch']
+    bad = []
+    for base, d in pjobs[:40]:
+        bad.extend(mutate_diff(rng, base, d))
+    bad_results = run_ts([{'kind': 'patch', 'base': b_, 'diff': d_} for b_, d_ in bad]) if bad else []
+    allp = pjobs + bad
+    allres = [r for j, r in zip(jobs, results[:len(jobs)]) if j['kind'] == 'patch'] + bad_results
+    tsmodel = vlib.Driver().run([{'cmd': 'tspatch', 'doc': enc(b_), 'diff': vlib.enc_diff(d_)} for b_, d_ in allp])
+    pm = []
+    for (b_, d_), res, m in zip(allp, allres, tsmodel):
+        ctx.count('ts-patch-model:' + ('ok' if res['ok'] else 'rejects'))
+        ctx.cov['traces_validated_against_impl'] += 1
+        if res['ok'] != ('ok' in m) or (res['ok'] and canon(res['value']) != canon(dec(m['ok']))):
+            pm.append({'base': enc(b_), 'diff': vlib.enc_diff(d_), 'ts': json.dumps(res)[:300], 'model': json.dumps(m)[:300]})
+        # domain of C15_ts_patch_eq (canonical base, no exotic separator in any string, diff well-formed), evaluated by the
+        # driver: inside it the two model patchers agree (a theorem), hence so must the two implementations
+        if m.get('domain') is True:
+            ctx.count('theorem-domain:ts_patch_eq')
+            ctx.cov['theorem_hypothesis_checks'] = ctx.cov.get('theorem_hypothesis_checks', 0) + 1
+            py = m.get('python', {})
+            if ('ok' in m) != ('ok' in py) or ('ok' in m and json.dumps(m['ok'], sort_keys=True) != json.dumps(py['ok'], sort_keys=True)):
+                raise vlib.Infra('driver contradicts C15_ts_patch_eq')
+        elif 'domain' in m:
+            ctx.count('theorem-domain:ts_patch_eq-outside (exotic separator / ill-formed variant)')
+    ctx.cov['correspondence_mismatches'] += len(pm)
+    if pm and not ctx.violations:
+        ctx.violation('correspondence Ts.patch model <-> real TypeScript patch broken (%d); first: %s' % (len(pm), json.dumps(pm[0])[:400]),
+                      {'kind': 'correspondence', 'stream': 'C15 tspatch', 'first': pm[0], 'theorems': TS_PATCH_THEOREMS}, found=False, classify=False)
     if note and not ctx.violations:
         ctx.violation('generated obligation (extracted TS action list = Ts.actionsPinned) no longer checks: ' + note,
                       {'kind': 'obligation', 'theorem': 'gen/C15_Tables.lean', 'output': note}, found=False, classify=False)
